@@ -1,11 +1,15 @@
 """C06 — word-level instruction semantics are exact and total.
 
-Obligations: T-purefuns (guards/constants/pure functions of bitvec.py -> Gen/GenBitvecGuards.v),
-Props/C06.vo (theorems about Model/BitVecModel.v over the regenerated guards), lint.
+Obligations: T-purefuns (guards / constants / pure functions / concrete-path return expressions with
+their divisors and work measures, branch structure; bitvec.py -> Gen/GenBitvecGuards.v), T-wordops (the
+opcode arms of SEVM.run, SEVM.arith, bitwise(), the abstraction functions; sevm.py -> Gen/GenWordOps.v),
+Props/C06.vo (theorems about Model/BitVecModel.v, which interprets the regenerated arms over the
+regenerated definitions), lint.
 Tie X-C06:
   L2  one-instruction SEVM.run on a hand-built Exec whose stack holds every mix of operand
-      representations (int-backed, term-backed, TRUE/FALSE, symbolic HalmosBool) — the real
-      dispatch layer (pop/popi/top/topi, bitwise(), SEVM.arith, sym_byte_of, int_of);
+      representations (int-backed, term-backed, TRUE/FALSE, symbolic HalmosBool) on top of 0..3
+      other words that must be left untouched — the real dispatch layer (pop/popi/top/topi,
+      bitwise(), SEVM.arith, sym_byte_of, int_of);
   L1  the real HalmosBitVec methods at sizes 256 and 8, abstractions on and off;
   L2p short real programs (PUSH .. ISZERO NOT etc.) showing the Bool-typed cases are reachable.
 Every result (concrete int or z3 term) is evaluated under several valuations by an own
@@ -25,7 +29,7 @@ from harness import common
 from harness.common import Model
 
 PID = "C06"
-TRANSLATORS = ["T-purefuns"]
+TRANSLATORS = ["T-purefuns", "T-wordops"]   # bitvec.py -> Gen/GenBitvecGuards.v, sevm.py -> Gen/GenWordOps.v
 
 # Genuine defects of halmos found by this check on the unchanged tree (same format as
 # known_findings.json; the coordinator decides between a fix: commit and that file).  A failing
@@ -41,7 +45,7 @@ ASSUMPTIONS = [
 ]
 PARTIAL = (
     "SIGNEXTEND with a symbolic index is rejected by design (NotConcreteError -> the path halts with an error): totality is proved and checked for concrete indices only. "
-    "Promptness is modelled by a work measure for concrete EXP only (bits of the unreduced lhs**rhs); z3 term construction cost is measured (alarm) but not modelled."
+    "Promptness is modelled by a work measure (bits of the largest integer CPython materialises, rules of Model/PyInt.v) for the concrete-path return expressions regenerated from bitvec.py; z3 term construction cost is measured (alarm) but not modelled."
 )
 
 M256 = (1 << 256) - 1
@@ -481,7 +485,7 @@ def stack_value(i, kind, v):
     return mk_operand(i, kind)
 
 
-def finish_run(exs, case):
+def finish_run(exs, case, junk=()):
     _disarm()
     if len(exs) != 1:
         return {"st": f"paths:{len(exs)}"}
@@ -494,6 +498,7 @@ def finish_run(exs, case):
     out = observe(ex.st.stack[-1], case)
     out["st"] = "ok"
     out["depth"] = len(ex.st.stack)
+    out["rest_ok"] = len(ex.st.stack) == len(junk) + 1 and all(x is y for x, y in zip(ex.st.stack, junk))
     conds = list(ex.path.conditions.keys())
     out["axioms"] = [[bool(zeval(c, env_of(case, j))) for c in conds] for j in range(len(case["vals"]))]
     return out
@@ -504,10 +509,15 @@ def impl_l2(case):
     if w["sebc"] != SEBC:
         return {"st": f"config:smt_exp_by_const={w['sebc']}"}
     ex = mk_exec(bytes([OPCODE[case["op"]], 0x00]))
+    from halmos.bitvec import HalmosBitVec
+
     vals = [stack_value(i, k, v) for i, (k, v) in enumerate(case["ops"])]
+    # the rest of the stack below the operands: must be left untouched (theorem C06_stack_frame*)
+    junk = [HalmosBitVec(0xDEAD0000 + i, size=256) for i in range(case.get("rest", 0))]
+    ex.st.stack.extend(junk)
     ex.st.stack.extend(reversed(vals))  # operand 0 is the top of the stack
     exs = list(w["sevm"].run(ex))
-    return finish_run(exs, case)
+    return finish_run(exs, case, junk)
 
 
 def impl_prog(case):
@@ -610,38 +620,54 @@ resource.setrlimit(resource.RLIMIT_AS, (2 << 30, 2 << 30))
 resource.setrlimit(resource.RLIMIT_CPU, (BUDGET, BUDGET + 1))   # CPU seconds: SIGXCPU ends the process
 sys.path.insert(0, sys.argv[1])
 from halmos.bitvec import HalmosBitVec as BV
-a, b = int(sys.argv[2]), int(sys.argv[3])
-t0 = time.process_time()
-try:
-    r = BV(a).exp(BV(b))
-    print("ok", r.value, round(time.process_time() - t0, 3))
-except BaseException as e:
-    print("exc:" + type(e).__name__, 0, round(time.process_time() - t0, 3))
+for line in sys.stdin:
+    a, b = (int(x) for x in line.split())
+    t0 = time.process_time()
+    try:
+        r = BV(a).exp(BV(b))
+        print("ok", r.value, round(time.process_time() - t0, 3), flush=True)
+    except BaseException as e:
+        print("exc:" + type(e).__name__, 0, round(time.process_time() - t0, 3), flush=True)
 """
 
 
 BIG_EXP_CPU_S = 6   # import of halmos + z3 costs about 1 s of it
 
 
-def start_big_exp(a, b):
-    return subprocess.Popen(["timeout", "-s", "KILL", "300", common.PY, "-c", BIG_EXP_SCRIPT.replace("BUDGET", str(BIG_EXP_CPU_S)), str(common.REPO / "src"), str(a), str(b)],
-                            stdout=subprocess.PIPE, stderr=subprocess.DEVNULL, text=True)
-
-
-def finish_big_exp(p, deadline):
+def start_big_exp(pairs):
+    """all pairs in ONE guarded child (address space and CPU limited); one result line per pair"""
+    p = subprocess.Popen(["timeout", "-s", "KILL", "300", common.PY, "-c", BIG_EXP_SCRIPT.replace("BUDGET", str(BIG_EXP_CPU_S)), str(common.REPO / "src")],
+                         stdin=subprocess.PIPE, stdout=subprocess.PIPE, stderr=subprocess.DEVNULL, text=True)
     try:
-        out, _ = p.communicate(timeout=max(0.1, deadline - time.time()))
-        parts = out.split()
-        if not parts:
-            # no output: ended by SIGXCPU / SIGKILL (CPU budget used up) or crashed before printing
-            return {"st": "timeout" if p.returncode not in (0, 1) else "exc:crash", "rc": p.returncode}
-        if parts[0] == "ok":
-            return {"st": "ok", "ty": "bv", "conc": True, "den": [int(parts[1])], "t": float(parts[2])}
-        return {"st": parts[0], "t": float(parts[2])}
+        p.stdin.write("".join(f"{a} {b}\n" for a, b in pairs))
+        p.stdin.close()
+    except OSError:
+        pass
+    return p
+
+
+def finish_big_exp(p, npairs, deadline):
+    """-> one observation per pair; the pairs the child did not reach before it was ended (CPU budget
+    used up by an earlier pair) are reported as `timeout` for the pair it died in and `skipped` after"""
+    try:
+        p.wait(timeout=max(0.1, deadline - time.time()))
     except subprocess.TimeoutExpired:
         p.kill()
-        p.communicate()
-        return {"st": "timeout"}
+    out = p.stdout.read() if p.stdout else ""
+    res = []
+    for line in out.splitlines():
+        parts = line.split()
+        if len(parts) != 3:
+            continue
+        if parts[0] == "ok":
+            res.append({"st": "ok", "ty": "bv", "conc": True, "den": [int(parts[1])], "t": float(parts[2])})
+        else:
+            res.append({"st": parts[0], "t": float(parts[2])})
+    if len(res) < npairs:
+        res.append({"st": "timeout" if p.returncode not in (0, 1) else "exc:crash", "rc": p.returncode})
+    while len(res) < npairs:
+        res.append({"st": "skipped"})
+    return res
 
 
 # ----------------------------------------------------------------- generators
@@ -760,13 +786,13 @@ def gen_l2(tier, r, B):
                     v2 = pick(r, B, "b" if k2 >= 2 else roles[1])
                     if op == "EXP" and k1 == 0 and k2 == 0 and exp_work(v1, v2) > WORK_LIMIT_INPROC:
                         v2 = v2 % 4096
-                    c = {"lvl": "L2", "op": op, "ops": [[k1, v1], [k2, v2]]}
+                    c = {"lvl": "L2", "op": op, "ops": [[k1, v1], [k2, v2]], "rest": r.choice([0, 0, 1, 3])}
                     cases.append(add_valuations(r, B, c, 2 if op == "EXP" else nextra, roles))
     for op in OPS1:
         for k1 in range(4):
             for _ in range(3 * per if k1 < 2 else 4):
                 v1 = pick(r, B, "b" if k1 >= 2 else "w")
-                c = {"lvl": "L2", "op": op, "ops": [[k1, v1]]}
+                c = {"lvl": "L2", "op": op, "ops": [[k1, v1]], "rest": r.choice([0, 0, 1, 3])}
                 cases.append(add_valuations(r, B, c, nextra, "w"))
     for op in OPS3:
         roles = ROLES[op]
@@ -776,7 +802,7 @@ def gen_l2(tier, r, B):
                     reps = (per // 2) if max(k1, k2, k3) < 2 else 2
                     for _ in range(max(2, reps)):
                         vs = [pick(r, B, "b" if k >= 2 else roles[i]) for i, k in enumerate((k1, k2, k3))]
-                        c = {"lvl": "L2", "op": op, "ops": [[k1, vs[0]], [k2, vs[1]], [k3, vs[2]]]}
+                        c = {"lvl": "L2", "op": op, "ops": [[k1, vs[0]], [k2, vs[1]], [k3, vs[2]]], "rest": r.choice([0, 0, 1, 3])}
                         cases.append(add_valuations(r, B, c, nextra, roles))
     return cases
 
@@ -944,7 +970,8 @@ def model_calls(case):
     return calls
 
 
-ERRNAME = {2: "NotConcreteError", 3: "ZeroDivisionError", 4: "TypeError", 5: "NotImplementedError"}
+ERRNAME = {2: "NotConcreteError", 3: "ZeroDivisionError", 4: "TypeError", 5: "NotImplementedError",
+           6: "StackUnderflowError", 7: "AttributeError", 8: "ValueError", 9: "wrong-stack-depth"}
 
 
 def model_obs(case, results):
@@ -953,7 +980,7 @@ def model_obs(case, results):
     if any(m is None or not m for m in main):
         return {"st": "model-error"}
     heads = {m[0] for m in main}
-    if heads == {9}:
+    if heads == {9} and all(len(m) == 2 for m in main):
         return {"st": "slow", "work": main[0][1]}
     if len(heads) != 1:
         return {"st": "model-inconsistent"}
@@ -1051,6 +1078,21 @@ def run_pool(cases, nproc, chunk=24):
     return out, crashed
 
 
+def par_small(model, calls, workers=8, timeout=300):
+    """Model.parallel_batch runs fewer than 64 calls serially; these few are expensive (256-bit modular
+    exponentiation in the extracted model): split them anyway"""
+    from concurrent.futures import ThreadPoolExecutor
+
+    n = max(1, min(workers, len(calls)))
+    chunks = [calls[i::n] for i in range(n)]
+    with ThreadPoolExecutor(n) as ex:
+        parts = list(ex.map(lambda c: model.batch(c, timeout), chunks))
+    out = [None] * len(calls)
+    for k, part in enumerate(parts):
+        out[k::n] = part
+    return out
+
+
 class Failures:
     """routes property violations: KNOWN entries are reported once as KNOWN-FINDING, the rest fail"""
 
@@ -1115,6 +1157,10 @@ def judge(fl, case, impl, mod, latent):
         j = next(i for i, (x, y) in enumerate(zip(impl["den"], S)) if x != y)
         fl.failing_input(f"{desc}: result denotes {impl['den'][j]} under valuation {case['vals'][j]}, the EVM result is {S[j]}", case,
                          make_sig(case, "wrong-value"))
+        ok = False
+    elif not impl.get("rest_ok", True):
+        fl.failing_input(f"{desc}: stack discipline: {impl.get('depth')} word(s) on the stack afterwards, expected the result on top of the {case.get('rest', 0)} untouched word(s) below the operands", case,
+                         make_sig(case, "stack-discipline"))
         ok = False
     elif impl.get("axioms") and not all(all(row) for row in impl["axioms"]):
         fl.failing_input(f"{desc}: a path constraint added by SEVM.arith is false under a valuation (with the exact definition of the abstraction)", case,
@@ -1181,10 +1227,15 @@ def run(rep, tier):
     phases = {"build_s": round(time.time() - t_start, 1)}
 
     # guarded big-exponent EXP runs (F2): started first, collected at the end
-    big = [(2, 1 << 64), ((1 << 255) + 1, 1 << 255), (3, 1 << 27)] if tier == "quick" else \
-          [(2, 1 << 64), ((1 << 255) + 1, 1 << 255), (3, 1 << 27), (M256, M256), (7, 1 << 40), (2, 1 << 30)]
-    big_procs = [(a, e, start_big_exp(a, e)) for a, e in big]
-    big_deadline = time.time() + 280.0   # the children end themselves after BIG_EXP_CPU_S CPU seconds
+    # cheap ones first: with the reduced power every pair costs microseconds; with an unreduced power
+    # the child dies in the first expensive pair and the rest is skipped
+    rb = common.rng(PID + "/bigexp")
+    big = [(3, 1 << 12), (M256, 4097), (3, 1 << 27), (2, 1 << 64), ((1 << 255) + 1, 1 << 255), (M256, M256), (7, 1 << 40), (2, 1 << 30),
+           (M256 - 1, M256), ((1 << 128) + 1, (1 << 128) - 1), (5, (1 << 256) - 189)]
+    big += [(rb.getrandbits(256) | 1, rb.getrandbits(rb.choice([64, 128, 256]))) for _ in range(12 if tier == "quick" else 60)]
+    big += [(rb.getrandbits(256), rb.getrandbits(256)) for _ in range(6 if tier == "quick" else 40)]
+    big_proc = start_big_exp(big)
+    big_deadline = time.time() + 280.0   # the child ends itself after BIG_EXP_CPU_S CPU seconds
 
     cases = gen_programs(tier, r, B) + gen_l2(tier, r, B) + gen_l1(tier, r, B)
     if tier == "thorough":
@@ -1275,6 +1326,15 @@ def run(rep, tier):
                                      {"op": "to_signed", "class": "wrong-value", "level": "L0"})
                 pcalls.append(("c06_pure", [1, xm, nb]))
                 pwant.append(got)
+        # Python's three-argument pow against the modelled py_pow3 (c06_pure 2)
+        rp = common.rng(PID + "/pow3")
+        for _ in range(40 if tier == "quick" else 400):
+            m_ = rp.choice([1 << 256, 1 << 8, 1 << 264, 1 << 512, rp.getrandbits(64) + 1, 1, 2, 3])
+            x_ = rp.choice([0, 1, 2, 3, m_ - 1, m_, m_ + 1, rp.getrandbits(256)])
+            e_ = rp.choice([0, 1, 2, 3, 5, 255, 256, 257, rp.getrandbits(16), rp.getrandbits(256)])
+            rep.case({"pure": "pow3", "a": x_, "e": e_, "m": m_}, nontrivial=True)
+            pcalls.append(("c06_pure", [2, x_, e_, m_]))
+            pwant.append(pow(x_, e_, m_))
         rep.count("level", "L0", len(pcalls))
         if exe is not None:
             pres = Model(exe).batch(pcalls)
@@ -1285,22 +1345,36 @@ def run(rep, tier):
     except Exception as e:  # noqa: BLE001
         rep.fail("broken-tie", f"pure-function tie crashed: {type(e).__name__}: {e}"[:300], case={})
 
-    # big exponents
-    for a, e, p in big_procs:
-        res = finish_big_exp(p, big_deadline)
+    # big exponents: real HalmosBitVec.exp in the guarded child vs the spec, the extracted model and
+    # the model's work prediction
+    big_res = finish_big_exp(big_proc, len(big), big_deadline)
+    big_model = None
+    if exe is not None:
+        try:
+            big_model = par_small(Model(exe), [("c06_method", [256, 1, SEBC, METHODS.index("exp"), 0, a, 0, e, 0, 0]) for a, e in big])
+        except Exception as e:  # noqa: BLE001
+            rep.fail("broken-tie", f"extracted model driver failed on the big-exponent cases: {e}"[:300], case={})
+    for i, ((a, e), res) in enumerate(zip(big, big_res)):
         c = {"lvl": "L1", "n": 256, "abs": 1, "op": "exp", "ops": [[0, a], [0, e]], "vals": [[a, e]]}
         rep.case({"big_exp": [a, e]}, nontrivial=True)
         rep.count("op", "exp(big)")
         sig = {"op": "EXP", "class": "not-prompt", "operands": "concrete", "level": "L1-subprocess"}
+        want = pow(a, e, 1 << 256)
+        mo = big_model[i] if big_model else None
+        if res["st"] == "skipped":
+            continue
         if res["st"] == "timeout":
-            fl.failing_input(f"concrete EXP {a} ** {e}: HalmosBitVec.exp did not return within {BIG_EXP_CPU_S} CPU seconds (killed); EVM result is {pow(a, e, 1 << 256)}", c, sig)
+            fl.failing_input(f"concrete EXP {a} ** {e}: HalmosBitVec.exp did not return within {BIG_EXP_CPU_S} CPU seconds (killed); EVM result is {want}"
+                             + (f"; the regenerated work measure predicts an integer of {mo[1]} bits" if mo and mo[0] == 9 else ""), c, sig)
         elif res["st"] != "ok":
             sig["class"] = "not-prompt" if res["st"] in ("exc:MemoryError", "exc:OverflowError") else "exception:" + res["st"].split(":")[-1]
-            fl.failing_input(f"concrete EXP {a} ** {e}: HalmosBitVec.exp ended with {res['st']} (unreduced power does not fit in memory); EVM result is {pow(a, e, 1 << 256)}", c, sig)
-        elif res["den"][0] != pow(a, e, 1 << 256):
-            fl.failing_input(f"concrete EXP {a} ** {e}: wrong value", c, {"op": "EXP", "class": "wrong-value"})
+            fl.failing_input(f"concrete EXP {a} ** {e}: HalmosBitVec.exp ended with {res['st']} (unreduced power does not fit in memory); EVM result is {want}", c, sig)
+        elif res["den"][0] != want:
+            fl.failing_input(f"concrete EXP {a} ** {e}: result {res['den'][0]}, EVM result {want}", c, {"op": "EXP", "class": "wrong-value", "operands": "concrete", "level": "L1-subprocess"})
         elif res.get("t", 0) > PROMPT_S:
             fl.failing_input(f"concrete EXP {a} ** {e}: took {res['t']}s", c, sig)
+        elif mo and mo[0] == 0 and (mo[1] != 0 or mo[2] != res["den"][0]):
+            fl.broken_tie(f"concrete EXP {a} ** {e}: model {mo}, implementation {res['den'][0]} (int-backed)", c)
 
     for kid, h in sorted(fl.known_hits.items()):
         print(f"KNOWN-FINDING: property={PID} {kid}: {h['what']} [{h['count']} case(s), e.g. {json.dumps(h['example'], default=str)[:300]}]")
@@ -1316,7 +1390,7 @@ def run(rep, tier):
         trusted_base=common.TRUSTED_BASE_COMMON + ["harness/props/C06.py: zeval (big-int evaluator of halmos' z3 terms with exact f_evm_* definitions) and the Python rendering of Base/Word.v"],
         assumptions=ASSUMPTIONS,
         partial=PARTIAL,
-        rule="cases = (level, instruction/method, operand representations in {int-backed, term-backed, TRUE/FALSE, symbolic Bool}, operand values, extra valuations of the symbolic operands). L2: one-instruction SEVM.run on a pre-loaded stack for all 25 instructions x all representation mixes; L2p: short real programs; L1: HalmosBitVec methods at sizes 256 and 8 with abstractions on/off. Values from {0,1,2,2^k,2^k+-1,2^255+-1,2^256-1, integer literals of bitvec.py +-1, shift/index set, random words of several shapes}. A case is non-trivial when an operand is not int-backed or a value is a boundary value; distinct by hash of the whole case; each valuation counts as an evaluation.",
+        rule="(plus: L0 pure functions incl. Python's 3-argument pow vs the modelled py_pow3; concrete EXP with large bases/exponents in one address-space- and CPU-limited child process vs spec, model and the model's work prediction) cases = (level, instruction/method, operand representations in {int-backed, term-backed, TRUE/FALSE, symbolic Bool}, operand values, extra valuations of the symbolic operands). L2: one-instruction SEVM.run on a pre-loaded stack for all 25 instructions x all representation mixes; L2p: short real programs; L1: HalmosBitVec methods at sizes 256 and 8 with abstractions on/off. Values from {0,1,2,2^k,2^k+-1,2^255+-1,2^256-1, integer literals of bitvec.py +-1, shift/index set, random words of several shapes}. A case is non-trivial when an operand is not int-backed or a value is a boundary value; distinct by hash of the whole case; each valuation counts as an evaluation.",
     )
 
 
